@@ -31,8 +31,9 @@ structure Fr (w w' : W) : Prop where
   recl : w.Reclaimed → w'.Reclaimed
   rid : w.db.nextRid ≤ w'.db.nextRid
   dbk : w.DbStep w'
+  seq : w.db.seq ≤ w'.db.seq
 
-theorem Fr.refl (w : W) : Fr w w := ⟨rfl, rfl, rfl, fun _ => rfl, ⟨[], by simp⟩, id, id, Nat.le_refl _, Or.inl ⟨rfl, rfl, rfl⟩⟩
+theorem Fr.refl (w : W) : Fr w w := ⟨rfl, rfl, rfl, fun _ => rfl, ⟨[], by simp⟩, id, id, Nat.le_refl _, Or.inl ⟨rfl, rfl, rfl⟩, Nat.le_refl _⟩
 
 theorem W.DbStep.trans {a b c : W} (hk : b.k.key = a.k.key) (h1 : a.DbStep b) (h2 : b.DbStep c) : a.DbStep c := by
   unfold W.DbStep at *
@@ -46,7 +47,7 @@ theorem W.DbStep.trans {a b c : W} (hk : b.k.key = a.k.key) (h1 : a.DbStep b) (h
 
 theorem Fr.trans {a b c : W} (h1 : Fr a b) (h2 : Fr b c) : Fr a c := by
   refine ⟨h2.key.trans h1.key, h2.leader.trans h1.leader, h2.now.trans h1.now, ?_, ?_, fun h => h2.gone (h1.gone h),
-    fun h => h2.recl (h1.recl h), Nat.le_trans h1.rid h2.rid, W.DbStep.trans h1.key h1.dbk h2.dbk⟩
+    fun h => h2.recl (h1.recl h), Nat.le_trans h1.rid h2.rid, W.DbStep.trans h1.key h1.dbk h2.dbk, Nat.le_trans h1.seq h2.seq⟩
   · intro h; rw [h2.aof (by rw [h1.leader]; exact h), h1.aof h]
   · obtain ⟨m1, e1⟩ := h1.out
     obtain ⟨m2, e2⟩ := h2.out
@@ -75,9 +76,9 @@ theorem FQ.trans {a b c : W} (h1 : FQ a b) (h2 : FQ b c) : FQ a c := ⟨h1.fr.tr
 /-- editing the key record by a function that keeps key, cell and `locked` -/
 theorem FQ.modK (w : W) (f : Key → Key) (hk : (f w.k).key = w.k.key) (hc : (f w.k).cell = w.k.cell) (hl : (f w.k).locked = w.k.locked) :
     FQ w (w.modK f) :=
-  ⟨⟨hk, rfl, rfl, fun _ => rfl, ⟨[], by simp⟩, id, fun h => ⟨h.1, by simpa [hk] using h.2⟩, Nat.le_refl _, Or.inl ⟨rfl, rfl, rfl⟩⟩, ⟨rfl, by simp [hc], hl, rfl⟩⟩
+  ⟨⟨hk, rfl, rfl, fun _ => rfl, ⟨[], by simp⟩, id, fun h => ⟨h.1, by simpa [hk] using h.2⟩, Nat.le_refl _, Or.inl ⟨rfl, rfl, rfl⟩, Nat.le_refl _⟩, ⟨rfl, by simp [hc], hl, rfl⟩⟩
 theorem FQ.modR (w : W) (rid : Nat) (f : Rec → Rec) : FQ w (w.modR rid f) :=
-  ⟨⟨rfl, rfl, rfl, fun _ => rfl, ⟨[], by simp⟩, id, id, Nat.le_refl _, Or.inl ⟨rfl, rfl, rfl⟩⟩, ⟨rfl, rfl, rfl, rfl⟩⟩
+  ⟨⟨rfl, rfl, rfl, fun _ => rfl, ⟨[], by simp⟩, id, id, Nat.le_refl _, Or.inl ⟨rfl, rfl, rfl⟩, Nat.le_refl _⟩, ⟨rfl, rfl, rfl, rfl⟩⟩
 theorem FQ.ref (w : W) (rid : Nat) : FQ w (w.ref rid) := FQ.modR _ _ _
 theorem FQ.when (w : W) (b : Bool) (f : W → W) (h : FQ w (f w)) : FQ w (w.when b f) := by
   cases b
@@ -88,17 +89,17 @@ theorem Fr.when (w : W) (b : Bool) (f : W → W) (h : Fr w (f w)) : Fr w (w.when
   · exact Fr.refl _
   · exact h
 theorem FQ.ctr (w : W) (f : Counters → Counters) : FQ w (w.ctr f) :=
-  ⟨⟨rfl, rfl, rfl, fun _ => rfl, ⟨[], by simp⟩, id, id, Nat.le_refl _, Or.inl ⟨rfl, rfl, rfl⟩⟩, ⟨rfl, rfl, rfl, rfl⟩⟩
+  ⟨⟨rfl, rfl, rfl, fun _ => rfl, ⟨[], by simp⟩, id, id, Nat.le_refl _, Or.inl ⟨rfl, rfl, rfl⟩, Nat.le_refl _⟩, ⟨rfl, rfl, rfl, rfl⟩⟩
 theorem FQ.bumpErr (w : W) : FQ w w.bumpErr := FQ.ctr _ _
 theorem Fr.reply (w : W) (c : Cmd) (a b : Nat) (d : Option Bytes) : Fr w (w.reply c a b d) :=
-  ⟨rfl, rfl, rfl, fun _ => rfl, ⟨_, rfl⟩, id, id, Nat.le_refl _, Or.inl ⟨rfl, rfl, rfl⟩⟩
+  ⟨rfl, rfl, rfl, fun _ => rfl, ⟨_, rfl⟩, id, id, Nat.le_refl _, Or.inl ⟨rfl, rfl, rfl⟩, Nat.le_refl _⟩
 
 /-- editing only `locked` -/
 theorem Fr.modLocked (w : W) (f : Key → Key) (hk : (f w.k).key = w.k.key) : Fr w (w.modK f) :=
-  ⟨hk, rfl, rfl, fun _ => rfl, ⟨[], by simp⟩, id, fun h => ⟨h.1, by simpa [hk] using h.2⟩, Nat.le_refl _, Or.inl ⟨rfl, rfl, rfl⟩⟩
+  ⟨hk, rfl, rfl, fun _ => rfl, ⟨[], by simp⟩, id, fun h => ⟨h.1, by simpa [hk] using h.2⟩, Nat.le_refl _, Or.inl ⟨rfl, rfl, rfl⟩, Nat.le_refl _⟩
 
 theorem Fr.removeIfZero (w : W) : Fr w w.removeIfZero := by
-  refine ⟨by simp, by simp, by simp, fun _ => by simp, ⟨[], by simp⟩, removeIfZero_gone_mono w, ?_, ?_, ?_⟩
+  refine ⟨by simp, by simp, by simp, fun _ => by simp, ⟨[], by simp⟩, removeIfZero_gone_mono w, ?_, ?_, ?_, ?_⟩
   · intro h
     have : w.removeIfZero = w := by unfold W.removeIfZero; simp [h.1]
     rw [this]; exact h
@@ -108,6 +109,9 @@ theorem Fr.removeIfZero (w : W) : Fr w w.removeIfZero := by
   · rcases removeIfZero_cases w with e | ⟨hg, _, h0, _, hd⟩
     · rw [e]; exact Or.inl ⟨rfl, rfl, rfl⟩
     · exact Or.inr ⟨h0, hg, by rw [hd]; rfl, by rw [hd]; rfl⟩
+  · rcases removeIfZero_cases w with e | ⟨_, _, _, _, hd⟩
+    · rw [e]; exact Nat.le_refl _
+    · rw [hd]; exact Nat.le_refl _
 
 /-- when `removeIfZero` fires, the record is unlinked -/
 theorem removeIfZero_reclaimed (w : W) (h : w.removeIfZero.gone = true) (h0 : w.gone = false) : w.removeIfZero.Reclaimed := by
@@ -138,7 +142,12 @@ theorem hasKey_congr {a b : DB} (h : a.keys = b.keys) (n : Nat) : a.hasKey n = b
 theorem Fr.procData (w : W) (ct : Slock.Value.CmdType) (c : Cmd) (f : Option Bytes) (rid : Nat) : Fr w (w.procData ct c f rid) :=
   ⟨by simp, by simp, by simp, fun _ => by simp, ⟨[], by simp⟩, fun h => by simpa using h,
    fun h => ⟨by simpa using h.1, by rw [hasKey_congr (procData_keys w ct c f rid), procData_key]; exact h.2⟩,
-   by rw [procData_nextRid]; exact Nat.le_refl _, Or.inl ⟨procData_keys w ct c f rid, procData_keyCount w ct c f rid, by simp⟩⟩
+   by rw [procData_nextRid]; exact Nat.le_refl _, Or.inl ⟨procData_keys w ct c f rid, procData_keyCount w ct c f rid, by simp⟩, by
+     unfold W.procData; split
+     · exact Nat.le_refl _
+     · simp only []; split
+       · exact Nat.le_refl _
+       · split <;> exact Nat.le_refl _⟩
 
 /-! ### journalling -/
 
@@ -149,8 +158,8 @@ theorem FQ.pushLockAof (w : W) (rid flag : Nat) : FQ w (w.pushLockAof rid flag) 
   · rename_i hl
     simp only []
     split
-    · exact ⟨⟨rfl, rfl, rfl, fun _ => rfl, ⟨[], by simp⟩, id, id, Nat.le_refl _, Or.inl ⟨rfl, rfl, rfl⟩⟩, ⟨rfl, rfl, rfl, rfl⟩⟩
-    · refine ⟨⟨by simp, rfl, rfl, ?_, ⟨[], by simp⟩, id, ?_, Nat.le_refl _, Or.inl ⟨rfl, rfl, rfl⟩⟩, ⟨rfl, by simpa using aofLockData_vstrip w.k true rid, by simp, rfl⟩⟩
+    · exact ⟨⟨rfl, rfl, rfl, fun _ => rfl, ⟨[], by simp⟩, id, id, Nat.le_refl _, Or.inl ⟨rfl, rfl, rfl⟩, Nat.le_refl _⟩, ⟨rfl, rfl, rfl, rfl⟩⟩
+    · refine ⟨⟨by simp, rfl, rfl, ?_, ⟨[], by simp⟩, id, ?_, Nat.le_refl _, Or.inl ⟨rfl, rfl, rfl⟩, Nat.le_refl _⟩, ⟨rfl, by simpa using aofLockData_vstrip w.k true rid, by simp, rfl⟩⟩
       · intro h; simp [h] at hl
       · intro h; exact ⟨h.1, by simpa [DB.hasKey, DB.findKey] using h.2⟩
 
@@ -165,8 +174,8 @@ theorem FQ.pushUnLockAof (w : W) (rid : Nat) (lc : Cmd) (fa ia : Bool) (flag : N
   · exact FQ.refl _
   · rename_i hl
     split
-    · exact ⟨⟨rfl, rfl, rfl, fun _ => rfl, ⟨[], by simp⟩, id, id, Nat.le_refl _, Or.inl ⟨rfl, rfl, rfl⟩⟩, ⟨rfl, rfl, rfl, rfl⟩⟩
-    · refine ⟨⟨by simp, rfl, rfl, ?_, ⟨[], by simp⟩, id, ?_, Nat.le_refl _, Or.inl ⟨rfl, rfl, rfl⟩⟩, ⟨rfl, by simpa using aofLockData_vstrip w.k false rid, by simp, rfl⟩⟩
+    · exact ⟨⟨rfl, rfl, rfl, fun _ => rfl, ⟨[], by simp⟩, id, id, Nat.le_refl _, Or.inl ⟨rfl, rfl, rfl⟩, Nat.le_refl _⟩, ⟨rfl, rfl, rfl, rfl⟩⟩
+    · refine ⟨⟨by simp, rfl, rfl, ?_, ⟨[], by simp⟩, id, ?_, Nat.le_refl _, Or.inl ⟨rfl, rfl, rfl⟩, Nat.le_refl _⟩, ⟨rfl, by simpa using aofLockData_vstrip w.k false rid, by simp, rfl⟩⟩
       · intro h; simp [h] at hl
       · intro h; exact ⟨h.1, by simpa [DB.hasKey, DB.findKey] using h.2⟩
 
@@ -177,9 +186,9 @@ theorem FQ.journalUnlock (w : W) (rid : Nat) (fa ia : Bool) (flag : Nat) : FQ w 
 /-! ### wheels and records -/
 
 theorem FQ.addTimeOut (w : W) (rid : Nat) : FQ w (w.addTimeOut rid) :=
-  ⟨⟨rfl, rfl, rfl, fun _ => rfl, ⟨[], by simp [W.addTimeOut]⟩, id, id, Nat.le_refl _, Or.inl ⟨rfl, rfl, rfl⟩⟩, ⟨rfl, rfl, rfl, rfl⟩⟩
+  ⟨⟨rfl, rfl, rfl, fun _ => rfl, ⟨[], by simp [W.addTimeOut]⟩, id, id, Nat.le_refl _, Or.inl ⟨rfl, rfl, rfl⟩, Nat.le_succ _⟩, ⟨rfl, rfl, rfl, rfl⟩⟩
 theorem FQ.schedExpried (w : W) (rid : Nat) : FQ w (w.schedExpried rid) :=
-  ⟨⟨rfl, rfl, rfl, fun _ => rfl, ⟨[], by simp [W.schedExpried]⟩, id, id, Nat.le_refl _, Or.inl ⟨rfl, rfl, rfl⟩⟩, ⟨rfl, rfl, rfl, rfl⟩⟩
+  ⟨⟨rfl, rfl, rfl, fun _ => rfl, ⟨[], by simp [W.schedExpried]⟩, id, id, Nat.le_refl _, Or.inl ⟨rfl, rfl, rfl⟩, Nat.le_succ _⟩, ⟨rfl, rfl, rfl, rfl⟩⟩
 theorem FQ.addExpried (w : W) (rid : Nat) : FQ w (w.addExpried rid) := by
   unfold W.addExpried
   exact (FQ.schedExpried w rid).trans (FQ.when _ _ _ (FQ.pushLockAofN _ _ _))
@@ -189,7 +198,7 @@ theorem FQ.dropLongT (w : W) (rid : Nat) : FQ w (w.dropLongT rid) := FQ.when _ _
 theorem FQ.dropLongE (w : W) (rid : Nat) : FQ w (w.dropLongE rid) := FQ.when _ _ _ (FQ.removeLongE _ _)
 
 theorem FQ.newLock (w : W) (c : Cmd) (d : Option Bytes) : FQ w (w.newLock c d).1 :=
-  ⟨⟨rfl, rfl, rfl, fun _ => rfl, ⟨[], by simp [W.newLock]⟩, id, id, Nat.le_succ _, Or.inl ⟨rfl, rfl, rfl⟩⟩, ⟨rfl, rfl, rfl, rfl⟩⟩
+  ⟨⟨rfl, rfl, rfl, fun _ => rfl, ⟨[], by simp [W.newLock]⟩, id, id, Nat.le_succ _, Or.inl ⟨rfl, rfl, rfl⟩, Nat.le_refl _⟩, ⟨rfl, rfl, rfl, rfl⟩⟩
 
 @[simp] theorem Key.addLock_key (k : Key) (r : Nat) (f : Rec → Rec) : (k.addLock r f).key = k.key := by unfold Key.addLock; split <;> simp
 @[simp] theorem Key.addLock_cell (k : Key) (r : Nat) (f : Rec → Rec) : (k.addLock r f).cell = k.cell := by unfold Key.addLock; split <;> simp
